@@ -3,10 +3,16 @@
 package control
 
 import (
+	"context"
+	stderrors "errors"
+	"net"
 	"net/netip"
 	"strconv"
+	"time"
 
 	"github.com/cilium/ebpf"
+	"github.com/daeuniverse/dae/component/outbound/dialer"
+	"github.com/daeuniverse/outbound/netproxy"
 
 	vs "github.com/daeuniverse/dae/zz_vs"
 )
@@ -214,4 +220,140 @@ func Verif_C13_overflow() {
 	}
 	vs.Note("ran " + strconv.Itoa(len(l.ran)) + " of " + strconv.Itoa(n+extra))
 	vs.Assert("every task of the burst ran exactly once, in the order accepted", ok)
+}
+
+// ---- UDP endpoint pool: one dial for concurrent first packets, failures cool down, exactly-once close ----
+
+type c13PacketConn struct {
+	in     chan []byte
+	closes int
+	wake   chan struct{}
+	closed bool
+}
+
+func c13NewPC() *c13PacketConn { return &c13PacketConn{in: make(chan []byte, 4), wake: make(chan struct{})} }
+
+func (c *c13PacketConn) ReadFrom(p []byte) (int, netip.AddrPort, error) {
+	select {
+	case b := <-c.in:
+		return copy(p, b), netip.MustParseAddrPort("8.8.8.8:53"), nil
+	case <-c.wake:
+		return 0, netip.AddrPort{}, net.ErrClosed
+	}
+}
+func (c *c13PacketConn) Read(p []byte) (int, error) { n, _, err := c.ReadFrom(p); return n, err }
+func (c *c13PacketConn) WriteTo(p []byte, addr string) (int, error) {
+	if c.closed {
+		return 0, net.ErrClosed
+	}
+	return len(p), nil
+}
+func (c *c13PacketConn) Write(p []byte) (int, error) { return c.WriteTo(p, "") }
+func (c *c13PacketConn) Close() error {
+	c.closes++
+	if !c.closed {
+		c.closed = true
+		close(c.wake)
+	}
+	return nil
+}
+func (c *c13PacketConn) SetDeadline(t time.Time) error      { return nil }
+func (c *c13PacketConn) SetReadDeadline(t time.Time) error  { return nil }
+func (c *c13PacketConn) SetWriteDeadline(t time.Time) error { return nil }
+
+type c13Dialer struct {
+	dials     int
+	failFirst int
+	conns     []*c13PacketConn
+}
+
+func (d *c13Dialer) DialContext(ctx context.Context, network, addr string) (netproxy.Conn, error) {
+	d.dials++
+	vs.Yield() // a dial takes time: other packets of the flow arrive meanwhile
+	if d.dials <= d.failFirst {
+		return nil, stderrors.New("dial: upstream unreachable")
+	}
+	c := c13NewPC()
+	d.conns = append(d.conns, c)
+	return c, nil
+}
+
+// Verif_C13_endpoint_pool: first packets of one client source arrive concurrently (two goroutines
+// call GetOrCreate for the same key) while the dial takes time: one dial only, both get the same
+// endpoint, a later packet still gets it; after a write error retires it a new one is dialled and
+// the old transport has been closed exactly once; closing the pool's endpoints closes each once.
+func Verif_C13_endpoint_pool() {
+	vs.Schedules(0)
+	vs.Assume(time.Now().After(time.Unix(1000, 0)))
+	p := &UdpEndpointPool{janitorStop: make(chan struct{}), janitorDone: make(chan struct{})}
+	for i := range p.shards {
+		p.shards[i].pool = make(map[UdpEndpointKey]*UdpEndpoint, 4)
+	}
+	fd := &c13Dialer{}
+	d := &dialer.Dialer{Dialer: fd}
+	key := UdpEndpointKey{Src: netip.MustParseAddrPort("10.0.0.1:1000")}
+	opt := func() *UdpEndpointOptions {
+		return &UdpEndpointOptions{
+			Handler:    func(ue *UdpEndpoint, data []byte, from netip.AddrPort) error { return nil },
+			NatTimeout: 30 * time.Second,
+			GetDialOption: func(ctx context.Context) (*DialOption, error) {
+				return &DialOption{Target: "8.8.8.8:53", Dialer: d, Network: "udp"}, nil
+			},
+		}
+	}
+	var got [2]*UdpEndpoint
+	var errs [2]error
+	for i := 0; i < 2; i++ {
+		i := i
+		go func() { got[i], _, errs[i] = p.GetOrCreate(key, opt()) }()
+	}
+	vs.Join()
+	vs.Assert("concurrent first packets succeed", errs[0] == nil && errs[1] == nil && got[0] != nil)
+	vs.Assert("concurrent first packets cause a single dial", fd.dials == 1)
+	vs.Assert("and go through the same endpoint", got[0] == got[1])
+	ue3, isNew, err := p.GetOrCreate(key, opt())
+	vs.Assert("a later packet of the source uses the same endpoint", err == nil && !isNew && ue3 == got[0] && fd.dials == 1)
+	// a write error retires the endpoint
+	fd.conns[0].closed = true
+	_, werr := got[0].WriteTo([]byte{1}, "8.8.8.8:53")
+	vs.Join()
+	vs.Assert("the failing write is reported", werr != nil)
+	vs.Assert("the retired endpoint's transport is closed exactly once", fd.conns[0].closes == 1)
+	ue4, isNew4, err := p.GetOrCreate(key, opt())
+	vs.Assert("a retired endpoint is never handed out again", err == nil && isNew4 && ue4 != got[0] && fd.dials == 2)
+	_ = ue4.Close()
+	_ = ue4.Close()
+	vs.Join()
+	vs.Assert("closing twice closes the transport once", fd.conns[1].closes == 1)
+}
+
+// Verif_C13_endpoint_cooldown: a dial fails; until the cool-down has passed (the clock is arbitrary)
+// the same source is refused without another dial, afterwards exactly one new dial is made.
+func Verif_C13_endpoint_cooldown() {
+	vs.Assume(time.Now().After(time.Unix(1000, 0)))
+	p := &UdpEndpointPool{janitorStop: make(chan struct{}), janitorDone: make(chan struct{})}
+	for i := range p.shards {
+		p.shards[i].pool = make(map[UdpEndpointKey]*UdpEndpoint, 4)
+	}
+	fd := &c13Dialer{failFirst: 1}
+	d := &dialer.Dialer{Dialer: fd}
+	key := UdpEndpointKey{Src: netip.MustParseAddrPort("10.0.0.1:1000")}
+	opt := &UdpEndpointOptions{
+		Handler:    func(ue *UdpEndpoint, data []byte, from netip.AddrPort) error { return nil },
+		NatTimeout: 30 * time.Second,
+		GetDialOption: func(ctx context.Context) (*DialOption, error) {
+			return &DialOption{Target: "8.8.8.8:53", Dialer: d, Network: "udp"}, nil
+		},
+	}
+	t0 := time.Now()
+	ue1, _, err1 := p.GetOrCreate(key, opt)
+	vs.Assert("a failed dial yields no endpoint", err1 != nil && ue1 == nil && fd.dials == 1)
+	ue2, _, err2 := p.GetOrCreate(key, opt)
+	t2 := time.Now()
+	if fd.dials == 1 {
+		vs.Assert("during the cool-down the source is refused without a dial", ue2 == nil && stderrors.Is(err2, ErrEndpointFailed))
+	} else {
+		vs.Assert("a new dial happens only after the cool-down", fd.dials == 2 && t2.Sub(t0) >= 2*time.Second)
+		vs.Assert("and then succeeds with a fresh endpoint", err2 == nil && ue2 != nil && !ue2.failed.Load())
+	}
 }
